@@ -138,6 +138,14 @@ def _targets(rng, labels_used):
     return t
 
 
+_SPELL = ["7", "near_7", "far_7", "_near_7", "_far_7", "near7", "far7", "_near7", "light_7", "light_near_7", "_7", "7_", "near_", "_near"]
+
+
+def _spell(u):
+    """injective spelling of the case's uuid numbers whose concatenation with a camera name collides across cameras"""
+    return _SPELL[u % len(_SPELL)] + "x" * (u // len(_SPELL))
+
+
 def _mk(rng, mode, uf, ests, gts, stream):
     used = [o[2] for o in ests + gts]
     n = len(ests)
@@ -146,6 +154,9 @@ def _mk(rng, mode, uf, ests, gts, stream):
     # a falsy-but-valid uuid: ONE uuid of the case is spelled "" on both sides (the matchers must only reject None)
     us = sorted({o[0] for o in ests + gts if o[0] is not None})
     case["u_empty"] = rng.choice(us) if us and rng.random() < 0.12 else None
+    # uuids that read like the tail of a camera name (round 5 of DESIGN section 9): (CAM_TRAFFIC_LIGHT, "near_7") and
+    # (CAM_TRAFFIC_LIGHT_NEAR, "7") are different tracks on different cameras although "<camera>_<uuid>" is one string
+    case["u_spell"] = rng.random() < 0.35
     # representation: which ground truths carry a ROI (a dataset annotation has one, the classifier's output has none), the
     # spelling of every label name / its attributes (seeded), and the keyword arguments the manager hands to get_object_results
     r = rng.random()
@@ -407,7 +418,7 @@ class PipelineCorr(Corr):
                 name = r.choice(names[lab.name])
                 label = E["Label"](lab, name) if attrs is None else E["Label"](lab, name, list(attrs))
             roi = (8 * k, 4, 10 + k, 10) if k in rois else None
-            uuid = None if u is None else ("" if u == case.get("u_empty") else f"u{u}")
+            uuid = None if u is None else ("" if u == case.get("u_empty") else (_spell(u) if case.get("u_spell") else f"u{u}"))
             objs.append(E["Obj"](100, E["cams"][c], 1.0, label, roi, uuid))
         return objs
 
@@ -645,6 +656,7 @@ class PipelineCorr(Corr):
              "one_uuid_spelled_as_the_empty_string": 0, "results_nested_like_the_manager_does(empty+3_lists)": 0}
         for c, o in zip(cases, obs):
             d["one_uuid_spelled_as_the_empty_string"] += c.get("u_empty") is not None
+            d["uuids_spelled_like_camera_name_tails"] = d.get("uuids_spelled_like_camera_name_tails", 0) + bool(c.get("u_spell"))
             d["results_nested_like_the_manager_does(empty+3_lists)"] += c.get("nest") == "mgr"
             roi = c.get("gt_roi") or []
             d["gt_with_roi"]["none" if not roi else ("first_gt" if 0 in roi else "only_later_gts")] += 1
